@@ -194,6 +194,52 @@ def check(run, project):
     run.require(len(mode_tests) >= 9, f"C07: only {len(mode_tests)} mode tests found (9 confirmed by hand)")
 
 
+def check_threading(run, project, rule="NI-2"):
+    """NI-2 as a stand-alone rule (also used by C08: warn mode must reach every callee)."""
+    fm = functions_with_mode(project)
+    by_name = {}
+    for (modname, q), (mod, fn) in fm.items():
+        by_name.setdefault(fn.name, []).append((modname, q, fn))
+    n = 0
+    for modname in (MARSHAL, CONSTRAINTS):
+        mod = project.module(modname)
+        for q, fn in mod.functions().items():
+            params = [a.arg for a in fn.args.args + fn.args.kwonlyargs]
+            if MODE not in params:
+                continue
+            for c in walk_no_nested(fn):
+                if not isinstance(c, ast.Call):
+                    continue
+                cands = []
+                if isinstance(c.func, ast.Name) and c.func.id in by_name:
+                    cands = [x for x in by_name[c.func.id] if "." not in x[1]]
+                elif isinstance(c.func, ast.Attribute) and c.func.attr in by_name:
+                    meths = [x for x in by_name[c.func.attr] if "." in x[1]]
+                    if meths:
+                        rc = class_of_receiver(fn, c, project)
+                        all_classes = classes_defining(project, c.func.attr)
+                        cands = [x for x in meths if x[1].split(".")[0] == rc] if rc is not None and rc in all_classes else meths
+                if not cands:
+                    continue
+                k = kwarg(c, MODE)
+                v = k
+                if v is None:
+                    tfn = cands[0][2]
+                    pnames = [a.arg for a in tfn.args.args]
+                    off = 1 if pnames and pnames[0] in ("self", "cls") and isinstance(c.func, ast.Attribute) else 0
+                    idx = pnames.index(MODE) - off if MODE in pnames else None
+                    if idx is not None and idx < len(c.args):
+                        v = c.args[idx]
+                ok = isinstance(v, ast.Name) and v.id == MODE
+                why = "omitted (callee falls back to strict)" if v is None else f"passed as `{norm(v)}`"
+                n += 1
+                run.ob(rule, ok, f"{q} L{c.lineno}: {norm(c.func)}(... abort_on_error=abort_on_error)",
+                       f"the mode flag is {why} in the call to {norm(c.func)}: everything decoded below this call runs in the "
+                       "wrong mode (in warn mode a problem there aborts decoding instead of being reported)",
+                       module=mod, node=c, func=q, construct=f"{norm(c.func)}(...) at call #{call_index(fn, c)}")
+    return n
+
+
 def default_of(fn, name):
     args = fn.args.args
     defaults = [None] * (len(args) - len(fn.args.defaults)) + list(fn.args.defaults)
